@@ -17,36 +17,44 @@ EXTENDS Naturals, TLC
 
 CONSTANTS Kinds,      \* {"plain", "ecs", "cd", "ecscd"}
           Borns,      \* {"msg", "wire"}
+          Flags,      \* client flag sets [do, ad]: what the client asked to be told about validation
           MaxSteps,
           LoseMarker  \* mutant: the ECS marker does not survive the detachment of a wire-born request
 
 VARIABLES cut,        \* a shared subtree cut covering the name exists
           n,
-          last        \* [kind, born, out]  out \in {"down", "synth"}   (hidden by VIEW)
+          last        \* [kind, born, f, out, ad]  out \in {"down", "synth"}, ad = AD bit of the reply  (hidden by VIEW)
 
 vars == <<cut, n, last>>
 
 Scoped(k, b) == k \in {"ecs", "ecscd"} /\ ~(LoseMarker /\ b = "wire")
 Bypass(k, b) == Scoped(k, b) \/ k \in {"cd", "ecscd"}
 
-Init == cut = FALSE /\ n = 0 /\ last = [kind |-> "none", born |-> "none", out |-> "none"]
+NoFlags == [do |-> FALSE, ad |-> FALSE]
+Init == cut = FALSE /\ n = 0 /\ last = [kind |-> "none", born |-> "none", f |-> NoFlags, out |-> "none", ad |-> FALSE]
 
-Ask(k, b) ==
+(* the denial is validated either way (resolved or synthesised from the validated cut): the reply's AD bit is the
+   edns layer's decision alone -- clear toward CD and toward a client that set neither DO nor AD (C06) *)
+ReplyAD(k, f) == k \notin {"cd", "ecscd"} /\ (f.do \/ f.ad)
+
+Ask(k, b, f) ==
   /\ n < MaxSteps
   /\ IF cut /\ ~Bypass(k, b)
-       THEN /\ last' = [kind |-> k, born |-> b, out |-> "synth"]     \* answered from the shared cut, no upstream work
+       THEN /\ last' = [kind |-> k, born |-> b, f |-> f, out |-> "synth", ad |-> ReplyAD(k, f)]     \* answered from the shared cut, no upstream work
             /\ cut' = cut
-       ELSE /\ last' = [kind |-> k, born |-> b, out |-> "down"]      \* resolved: a validated NXDOMAIN comes back
+       ELSE /\ last' = [kind |-> k, born |-> b, f |-> f, out |-> "down", ad |-> ReplyAD(k, f)]      \* resolved: a validated NXDOMAIN comes back
             /\ cut' = (cut \/ ~Bypass(k, b))                          \* ... and is admitted only for an unscoped, CD=0 tree
   /\ n' = n + 1
 
-Next == \E k \in Kinds, b \in Borns : Ask(k, b)
+Next == \E k \in Kinds, b \in Borns, f \in Flags : Ask(k, b, f)
 Spec == Init /\ [][Next]_vars
 
 (* an ECS- or CD-carrying query is never answered from shared synthesised state ... *)
 NeverConsumes == [][last'.kind \in {"ecs", "cd", "ecscd"} => last'.out = "down"]_vars
 (* ... and never creates it *)
 NeverCreates  == [][last'.kind \in {"ecs", "cd", "ecscd"} => cut' = cut]_vars
+(* C06 on every reply, synthesised ones included *)
+ADDiscipline  == [][last'.ad => (last'.kind \notin {"cd", "ecscd"} /\ (last'.f.do \/ last'.f.ad))]_vars
 (* the cut is used at all (vacuity) *)
 NeverSynth == last.out # "synth"
 
